@@ -83,10 +83,37 @@ TYPES = dict(Point=Point, Pad=Pad, Mixed=Mixed, c_longlong=ctypes.c_longlong, c_
              c_ulonglong=ctypes.c_ulonglong, c_uint16=ctypes.c_uint16, c_longdouble=ctypes.c_longdouble)
 
 
+# what each type code MEANS (array module / ctypes documentation), independent of the library's own table
+CODE_MEANS = {'c': ctypes.c_char, 'u': ctypes.c_wchar, 'b': ctypes.c_byte, 'B': ctypes.c_ubyte,
+              'h': ctypes.c_short, 'H': ctypes.c_ushort, 'i': ctypes.c_int, 'I': ctypes.c_uint,
+              'l': ctypes.c_long, 'L': ctypes.c_ulong, 'q': ctypes.c_longlong, 'Q': ctypes.c_ulonglong,
+              'f': ctypes.c_float, 'd': ctypes.c_double}
+
+
 def ctype_of(name):
+    if name in CODE_MEANS:
+        return CODE_MEANS[name]
     if name in sc.typecode_to_type:
         return sc.typecode_to_type[name]
     return TYPES[name]
+
+
+def readback(obj, twin):
+    """the value as read through the object's own Python interface against an ordinary ctypes object
+    built from the same arguments: [want, got] when they differ, else None"""
+    try:
+        if isinstance(twin, ctypes.Array):
+            if not issubclass(twin._type_, ctypes._SimpleCData):
+                return None            # arrays of structures: compared byte-wise only
+            want, got = list(twin[:]), list(obj[:])
+        elif hasattr(twin, 'value'):
+            want, got = twin.value, obj.value
+        else:
+            return None
+    except Exception as exc:       # noqa
+        return ['readable', 'raised %s' % type(exc).__name__]
+    return None if want == got and [type(x) for x in (want if isinstance(want, list) else [want])] == \
+        [type(x) for x in (got if isinstance(got, list) else [got])] else [repr(want)[:80], repr(got)[:80]]
 
 
 def conv(t, v):
@@ -144,6 +171,7 @@ def run_mem_case(c):
                     args = [conv(tn, a) for a in spec['args']]
                     o = sc.Value(targ, *args) if sync else sc.RawValue(targ, *args)
                     exp = private_bytes(ct(*args))
+                    rec['readback'] = readback(o, ct(*args))
                 elif kind == 1:
                     o = sc.Array(targ, spec['n']) if sync else sc.RawArray(targ, spec['n'])
                     exp = private_bytes((ct * spec['n'])())
@@ -151,6 +179,7 @@ def run_mem_case(c):
                     init = [conv(tn, a) for a in spec['init']]
                     o = sc.Array(targ, init) if sync else sc.RawArray(targ, init)
                     exp = private_bytes((ct * len(init))(*init))
+                    rec['readback'] = readback(o, (ct * len(init))(*init))
                 objs.append(o)
                 rec['block'], rec['size'] = block_of(o)
                 rec['expect'] = exp
